@@ -29,7 +29,7 @@ def plan(tier):
                 'restarts on the same file, and through ProxyKmipClient; a cell is (object type, value class, '
                 'attribute or field, reader version, after-restart?)',
         'min_monitor': {'objects_stored': 300, 'gets_compared': 800, 'attribute_sets_compared': 800, 'restarts': 30,
-                        'client_roundtrips': 100},
+                        'client_roundtrips': 100, 'concurrent_reads_compared': 300},
         'assumptions': ['the managed object sub-tree of a Get response must equal the sub-tree sent in Register, item for item',
                         'a Cryptographic Usage Mask of 0 reported for an object registered without a mask is tolerated',
                         'server-generated key bytes are learned at the first Get and must never change'],
@@ -38,7 +38,7 @@ def plan(tier):
 
 def cases(tier, seed):
     n = 192 if tier == 'quick' else 1280
-    return [{'run': i} for i in range(n)]
+    return [{'run': i} for i in range(n)] + [{'readers': i} for i in range(16 if tier == 'quick' else 160)]
 
 
 def rand_value(rng):
@@ -366,7 +366,88 @@ def expected_for(kind, meta, supplied, date, version, policy_supplied):
     return exp
 
 
+def run_readers(ctx, case):
+    """Reads while other clients read: objects of every kind are stored, every (client, version, read request) is answered
+    once with nobody else around, then the clients - each speaking its own KMIP version - repeat their reads at the same
+    time from their own threads (thread yields injected at executed lines of the package).  Nothing is written, so every
+    answer must be, byte for byte, the answer given before."""
+    import random as _random
+    import threading
+    from kv.monitors.yields import YieldInjector
+    rng = ctx.rng()
+    rig.install_clock(rig.VClock(step=0))
+    with rig.scratch_dir() as d:
+        srv = rig.Server(d + '/db.sqlite')
+        try:
+            uids = []
+            for i in range(6):
+                v = rng.choice(rig.VERSIONS)
+                kind, secret, attrs_, meta = gen_object(rng, v)
+                try:
+                    r = srv.send([op_register(kind, secret, attrs_)], ('alice', None), v)
+                except Exception:
+                    continue
+                if r.error is None and r.ok():
+                    uids.append(r.uid())
+            if len(uids) < 2:
+                return
+            clients = [(('alice', None), v) for v in rng.sample(rig.VERSIONS, 3)] + [(('alice', None), (2, 0)), (('alice', None), (1, 0))]
+            clients = clients[:rng.choice((3, 4, 5))]
+            scripts = []
+            for ident, v in clients:
+                reqs = []
+                for _ in range(rng.randrange(6, 14)):
+                    u = rng.choice(uids)
+                    op = rng.choice((op_get_attribute_list(u), op_get_attributes(u), op_get(u),
+                                     op_get_attributes(u, ['Operation Policy Name', 'Sensitive', 'State', 'Name']), op_locate()))
+                    try:
+                        reqs.append(rig.encode_request(rig.build_request(v, [op]), v))
+                    except Exception:
+                        pass
+                scripts.append(reqs)
+            alone = [[srv.send_bytes(q, ident, strict_decode=False).norm() for q in reqs] for (ident, v), reqs in zip(clients, scripts)]
+            results = [[] for _ in clients]
+
+            def client(ci):
+                ident, v = clients[ci]
+                for q in scripts[ci]:
+                    try:
+                        results[ci].append(srv.send_bytes(q, ident, strict_decode=False).norm())
+                    except BaseException as e:      # noqa
+                        results[ci].append(('raised', type(e).__name__, str(e)[:100]))
+            threads = [threading.Thread(target=client, args=(ci,)) for ci in range(len(clients))]
+            with YieldInjector(_random.Random(rng.getrandbits(32)), rng.choice((0.05, 0.15, 0.3)), tool=5, name='kv-c05') as yi:
+                for t in threads:
+                    t.start()
+                for t in threads:
+                    t.join(90)
+            if any(t.is_alive() for t in threads):
+                ctx.unsure('a reader thread of a concurrent C05 history did not finish within 90 s')
+                return
+            ctx.ev()
+            ctx.count('concurrent_reader_histories')
+            ctx.count('concurrent_yields_injected', yi.yields)
+            ctx.cell('readers', len(clients), '+'.join(sorted(set('%d.%d' % v for _, v in clients))))
+            for ci, ((ident, v), reqs) in enumerate(zip(clients, scripts)):
+                for j, q in enumerate(reqs):
+                    ctx.count('concurrent_reads_compared')
+                    if j < len(results[ci]) and results[ci][j] != alone[ci][j]:
+                        opn = 'read'
+                        try:
+                            opn = E.Operation(T.val(T.kid(T.decode(q, strict=False), T.T_BATCH_ITEM), T.T_OPERATION)).name.lower()
+                        except Exception:
+                            pass
+                        ctx.violation('concurrent-read|%s|%d.%d' % ((opn,) + v), 'a %s under KMIP %d.%d is answered differently while clients of '
+                                      'other versions read at the same time (nothing was written in between)' % ((opn,) + v),
+                                      {'alone': str(alone[ci][j])[:500], 'concurrent': str(results[ci][j])[:500],
+                                       'versions': ['%d.%d' % c[1] for c in clients]})
+        finally:
+            srv.close()
+
+
 def run_case(ctx, case):
+    if 'readers' in case:
+        return run_readers(ctx, case)
     rng = ctx.rng()
     clock = rig.install_clock(rig.VClock(step=0))
     with rig.scratch_dir() as d:
